@@ -514,6 +514,16 @@ def scanAndDispatch (cfg : Cfg) (tr : Transport) (now : Nat) (an ns ar opcode : 
         if opcode = 0 then handleQuery cfg question tr else setRcode (RC "NOTIMP")
         pure true
 
+/-- `context.response.add_question(&question)`; failure ⇒ SERVFAIL and stop (`false`) -/
+def addQuestionOrServfail (question : Option (WName × Nat × Nat)) : M Bool :=
+  match question with
+  | some (qn, qt, qc) => fun s =>
+    match addQuestion qn qt qc s with
+    | (.ok (), s') => (.ok true, s')
+    | (.err _, s') => (do setRcode (RC "SERVFAIL"); pure false) s'
+    | (.panic, s') => (.panic, s')
+  | none => pure true
+
 /-- `handle_message_with_context` -/
 def handleWithContext (cfg : Cfg) (tr : Transport) (now : Nat) (r0 : Reader.Reader) : M Bool := fun s =>
   -- returns `send_response`
@@ -536,15 +546,8 @@ def handleWithContext (cfg : Cfg) (tr : Transport) (now : Nat) (r0 : Reader.Read
     | (none, true, some 255) => (.panic, s)
     | (none, true, rc) => (do setRcode (rc.getD 0); pure true) s
     | (some (question, r1), _, _) =>
-      let addQ : M Bool := match question with
-        | some (qn, qt, qc) => fun s =>
-          match addQuestion qn qt qc s with
-          | (.ok (), s') => (.ok true, s')
-          | (.err _, s') => (do setRcode (RC "SERVFAIL"); pure false) s'
-          | (.panic, s') => (.panic, s')
-        | none => pure true
       (do
-        let okQ ← addQ
+        let okQ ← addQuestionOrServfail question
         if !okQ then pure true
         else scanAndDispatch cfg tr now an ns ar opcode question r1) s
   | _, _, _, _, _ => (.panic, s)
